@@ -108,7 +108,7 @@ def _replay_one(mod, rec, twin=False, known=None):
         e.check = lambda cond, what='', sig=None: orig(False, 'TWIN ' + str(what), 'twin')
     try:
         st = e.run(lambda en: h(en, **rec.get('params', {})))
-        res = {'status': st, 'failed': e.failed, 'obs': e.obs, 'known': e.known_hits}
+        res = {'status': st, 'failed': e.failed, 'obs': e.obs, 'known': e.known_hits, 'nchecks': getattr(e, 'nchecks', 0)}
     except BaseException as ex:     # noqa
         tb = traceback.extract_tb(ex.__traceback__)
         loc = '%s:%s' % (tb[-1].filename.split('/')[-1], tb[-1].lineno) if tb else '?'
@@ -349,10 +349,18 @@ def main():
             else:
                 path, rec = write_replay(c, v)
                 viol.append((path, rec, sig))
+        elif str(c.get('sig', '')).startswith('raises:') and v['status'] == 'ok':
+            # an exception seen only under the proxies (a C function rejected a symbolic value): a modelling gap, not a
+            # counterexample - the same input was just checked concretely on the real code and passed
+            degraded.append({'reason': 'exception under proxies only: %s' % c.get('what', '')[:120], 'label': c['label'], 'inputs': c['inputs']})
+            ndeg_gap = locals().get('ndeg_gap', 0) + 1
         else:
             unrepro.append((c, v))
-    ndeg_ok = 0
+    ndeg_ok = locals().get('ndeg_gap', 0)
+    conc_checked = {}
     for c, v in zip(dcand, verdicts[len(cand):]):
+        if v.get('nchecks'):
+            conc_checked[c['label']] = conc_checked.get(c['label'], 0) + v['nchecks']
         if v['status'] in ('failed', 'exception'):
             sig = v['failed'][0]['sig'] if v['failed'] else 'degraded'
             if hasattr(mod, 'signature'):
@@ -456,6 +464,10 @@ def main():
         problems.append('%d cross-validation mismatch(es): %s' % (xv_bad, json.dumps(xv_examples[:2], default=str)[:1500]))
     if incomplete:
         problems.append('incomplete exploration: %s' % incomplete[:4])
+    # a job whose paths all had to be checked concretely (unmodelled flow on an edited tree) did evaluate its obligations there
+    vacuous = [lab for lab in vacuous if not conc_checked.get(lab)]
+    degraded_labels = set(d['label'] for d in degraded)
+    twin_bad = [t for t in twin_bad if t.split('#twin')[0] not in degraded_labels]
     if vacuous:
         problems.append('jobs that never reached an obligation: %s' % vacuous[:5])
     if twin_bad:
